@@ -451,8 +451,8 @@ impl<P> Builder<P> {
             conn_idle_timeout: self.conn_idle_timeout,
             required_acks: self.required_acks,
             partitioner,
-            security_config: None,
-            client_id: None,
+            security_config: self.security_config,
+            client_id: self.client_id,
         }
     }
 
